@@ -14,7 +14,8 @@
 //!    are answered by a harness task through the public responder contract
 //!    (`wait_mdns_resolve_request` / `try_deposit_mdns_resolve`).
 //!
-//! Header: `case <id> sys seed=<n> drop=<pm> dup=<pm> delay=<pm> maxdelay=<ms> strict=<0|1>`.
+//! Header: `case <id> sys seed=<n> drop=<pm> dup=<pm> delay=<pm> maxdelay=<ms> strict=<0|1> gc=<0|1>`
+//! (`gc=1`: unsecured sessions without an exchange are evicted eagerly on all nodes).
 //! Ops (self-contained text):
 //!   `sub <who> <min> <max> <keep 0|1> <sel w|l> [hold=<chunk>:<ms>]`  queue a subscribe at subscriber `who`
 //!   `set <attr> <val>`                 change an attribute + `notify_attr_changed` (silent while the device is down)
@@ -70,6 +71,7 @@ use rs_matter::tlv::TLVWrite;
 use rs_matter::transport::exchange::{Exchange, MatterBuffers};
 use rs_matter::transport::network::mdns::{DottedName, MdnsRemoteService};
 use rs_matter::transport::network::{Address, MatterRemoteService, NoNetwork};
+use rs_matter::transport::session::SessionMode;
 use rs_matter::utils::sync::Notification;
 use rs_matter::{attributes, clusters, commands, events, with, Matter};
 
@@ -574,10 +576,12 @@ struct Hdr {
     delay: u64,
     maxdelay: u64,
     strict: bool,
+    /// evict the unsecured sessions that have no exchange left (what LRU eviction does on a busy node)
+    gc: bool,
 }
 
 fn parse_hdr(kind: &str) -> Hdr {
-    let mut h = Hdr { seed: 1, drop: 0, dup: 0, delay: 0, maxdelay: 0, strict: true };
+    let mut h = Hdr { seed: 1, drop: 0, dup: 0, delay: 0, maxdelay: 0, strict: true, gc: false };
     for t in kind.split_whitespace() {
         if let Some((k, v)) = t.split_once('=') {
             let n: u64 = v.parse().unwrap_or(0);
@@ -588,6 +592,7 @@ fn parse_hdr(kind: &str) -> Hdr {
                 "delay" => h.delay = n.min(1000),
                 "maxdelay" => h.maxdelay = n.min(5000),
                 "strict" => h.strict = n != 0,
+                "gc" => h.gc = n != 0,
                 _ => {}
             }
         }
@@ -612,6 +617,8 @@ struct World<'w> {
     dead: Cell<bool>,
     sets_after_est: Cell<u64>,
     linger_ms: Cell<u64>,
+    gc: bool,
+    nodes: Vec<&'w Matter<'w>>,
 }
 
 const WALL_BUDGET_S: u64 = 25;
@@ -679,6 +686,11 @@ impl World<'_> {
                 self.dead.set(true);
                 return;
             }
+            if self.gc {
+                for m in &self.nodes {
+                    evict_idle_unsecured(m);
+                }
+            }
             {
                 let fut = PollAll { dev: dev.as_mut().map(|d| &mut **d), subs, dev_exited, sample };
                 let _ = run_sim(&self.net, fut, 0);
@@ -735,6 +747,23 @@ impl World<'_> {
             }
         }
     }
+}
+
+/// Remove the unsecured sessions of `m` that have no exchange left. rs-matter keeps them until the
+/// session table is full (LRU eviction); a stale one shadows the unsecured session of a later
+/// handshake between the same two nodes (see docs/C13.md), so cases with `gc=1` evict them eagerly.
+fn evict_idle_unsecured(m: &Matter) {
+    m.with_state(|st| {
+        let ids: Vec<u32> = st
+            .verif_sessions()
+            .iter()
+            .filter(|s| matches!(s.get_session_mode(), SessionMode::PlainText) && !s.verif_flags().1 && s.verif_exchanges().iter().all(|e| e.is_none()))
+            .map(|s| s.id())
+            .collect();
+        for id in ids {
+            st.verif_sessions_mut().remove(id);
+        }
+    });
 }
 
 fn install<C: Crypto>(crypto: &C, keys: &Keys, m: &Matter, node: u64, kn: u64) -> Result<NonZeroU8, String> {
@@ -902,6 +931,8 @@ pub fn run_case(out: &mut Out, kind: &str, ops: &[String]) -> CaseFacts {
         dead: Cell::new(false),
         sets_after_est: Cell::new(0),
         linger_ms: Cell::new(0),
+        gc: hdr.gc,
+        nodes: core::iter::once(&*dev).chain(sub_matters.iter().map(|m| &**m)).collect(),
     };
     let kvstore = MemKv::default();
     let mut pos = 0usize;
@@ -1177,12 +1208,14 @@ impl Gen<'_> {
     }
 }
 
-pub const FAMILIES: [&str; 11] =
-    ["primrace", "compete", "loss", "dupdelay", "sessloss", "blackout", "restart", "gone", "unselected", "persistrace", "mix"];
+pub const FAMILIES: [&str; 12] = [
+    "primrace", "compete", "loss", "dupdelay", "sessloss", "outage", "blackout", "restart", "gone", "unselected", "persistrace", "mix",
+];
 
 fn gen_scenario(family: &str, r: &mut Rng, thorough: bool) -> (String, Vec<String>) {
     let seed = r.below(1 << 32);
     let strict = r.chance(2, 3);
+    let gc = if r.chance(2, 3) { 1 } else { 0 };
     let mut hdr = (0u64, 0u64, 0u64, 0u64);
     let mut g = Gen { r, ops: Vec::new(), next_val: 100, max_max: 40 };
     let max = *g.r.pick(&[40u64, 40, 45, 60]);
@@ -1193,6 +1226,14 @@ fn gen_scenario(family: &str, r: &mut Rng, thorough: bool) -> (String, Vec<Strin
             let hold = g.r.range(300, 1500);
             let sel = g.sel();
             let min = g.r.below(2);
+            // often with an established second subscriber: its report and the purge of the reporter
+            // pass run while the priming of subscriber 0 is outside the table
+            let other = g.r.chance(2, 3);
+            if other {
+                let s1 = g.sel();
+                g.sub(1, 0, max, true, s1, None);
+                g.run(2000);
+            }
             g.sub(0, min, max, true, sel, Some((k, hold)));
             g.run_r(100, hold - 100);
             for _ in 0..g.r.range(1, 3) {
@@ -1255,6 +1296,34 @@ fn gen_scenario(family: &str, r: &mut Rng, thorough: bool) -> (String, Vec<Strin
             for _ in 0..g.r.range(1, 3) {
                 g.set_any();
                 g.run_r(100, 8000);
+            }
+        }
+        "outage" => {
+            // a subscriber is unreachable for less than the maximum interval: the reports that fail
+            // meanwhile must be retried with their content once it is back
+            let s0 = g.sel();
+            let m0 = g.r.below(3);
+            g.sub(0, m0, max, true, s0, None);
+            if g.r.chance(1, 2) {
+                let s1 = g.sel();
+                g.sub(1, 0, max, true, s1, None);
+            }
+            g.run(3000);
+            g.set_any();
+            g.run_r(500, 8000);
+            let total = g.r.chance(1, 3);
+            g.op(if total { "adv 1000 0 0 0".to_string() } else { "black 0 1".to_string() });
+            for _ in 0..g.r.range(1, 3) {
+                g.set_any();
+                g.run_r(1000, 9000);
+            }
+            // at least one attempt has failed by now (MRP gives up after 6.1 s)
+            g.run_r(6500, 9000);
+            g.op(if total { "adv 0 0 0 0".to_string() } else { "black 0 0".to_string() });
+            g.run_r(0, 3000);
+            if g.r.chance(1, 2) {
+                g.set(8);
+                g.run_r(0, 4000);
             }
         }
         "blackout" => {
@@ -1353,7 +1422,7 @@ fn gen_scenario(family: &str, r: &mut Rng, thorough: bool) -> (String, Vec<Strin
             let d = *g.r.pick(&[200_000u64, 400_000]);
             g.run(d);
             g.op("obs".into());
-            let kind = format!("sys seed={} drop=0 dup=0 delay=0 maxdelay=0 strict={}", seed, if strict { 1 } else { 0 });
+            let kind = format!("sys seed={} drop=0 dup=0 delay=0 maxdelay=0 strict={} gc={}", seed, if strict { 1 } else { 0 }, gc);
             return (kind, g.ops);
         }
         _ => {
@@ -1407,20 +1476,21 @@ fn gen_scenario(family: &str, r: &mut Rng, thorough: bool) -> (String, Vec<Strin
     }
     g.finish();
     let kind = format!(
-        "sys seed={} drop={} dup={} delay={} maxdelay={} strict={}",
+        "sys seed={} drop={} dup={} delay={} maxdelay={} strict={} gc={}",
         seed,
         hdr.0,
         hdr.1,
         hdr.2,
         hdr.3,
-        if strict { 1 } else { 0 }
+        if strict { 1 } else { 0 },
+        gc
     );
     (kind, g.ops)
 }
 
 /// Append the system cases (ids from `first_id`) to `out`.
 pub fn gen(out: &mut Out, r: &mut Rng, thorough: bool, first_id: u64) {
-    let n = FAMILIES.len() as u64 * if thorough { 140 } else { 6 };
+    let n = FAMILIES.len() as u64 * if thorough { 130 } else { 6 };
     for k in 0..n {
         let mut cr = r.fork();
         let family = FAMILIES[(k as usize) % FAMILIES.len()];
